@@ -365,13 +365,15 @@ Definition C_once (c : ccfg) : Prop :=
   (forall t, lookup t (pm past_fu (c_thr c)) = Some true -> c_nl c = true) /\
   (c_once c = ODone -> c_nl c = true).
 
+Definition front_ok (lst : list node) (x : frontst) : Prop :=
+  match x with
+  | FNo => True
+  | FNeed => lst <> []
+  | FSel f => hd_error lst = Some f
+  end.
+
 Definition C_front (c : ccfg) : Prop :=
-  forall t x, lookup t (pm frontof (c_thr c)) = Some x ->
-    match x with
-    | FNo => True
-    | FNeed => c_lst c <> []
-    | FSel f => hd_error (c_lst c) = Some f
-    end.
+  forall t x, lookup t (pm frontof (c_thr c)) = Some x -> front_ok (c_lst c) x.
 
 Definition bpend (c : ccfg) : Z :=
   match c_mu c with
@@ -386,55 +388,9 @@ Definition C_ledger (c : ccfg) : Prop :=
   g_sig c + g_bcast c =
   g_nil c + Z.of_nat (length (c_tok c)) + g_drop c + sumZ (pm owed (c_thr c)) + bpend c.
 
-Definition C_own (c : ccfg) : Prop :=
-  NoDup (c_pool c) /\
-  (forall n t, In n (c_pool c) -> lookup t (pm wnode (c_thr c)) <> Some (Some n)) /\
-  (forall t1 t2 n, lookup t1 (pm wnode (c_thr c)) = Some (Some n) ->
-                   lookup t2 (pm wnode (c_thr c)) = Some (Some n) -> t1 = t2) /\
-  (forall n, In n (c_pool c) -> (n < c_next c)%nat) /\
-  (forall t n, lookup t (pm wnode (c_thr c)) = Some (Some n) -> (n < c_next c)%nat).
-
-Definition C_lst (c : ccfg) : Prop :=
-  NoDup (c_lst c) /\
-  (forall n, In n (c_lst c) -> ~ In n (g_notified c)) /\
-  (forall n, In n (c_lst c) ->
-     exists t ph, lookup t (pm nodest (c_thr c)) = Some (Some (n, ph)) /\ inlist_ph ph = true).
-
-Definition C_link (c : ccfg) : Prop :=
-  forall t n ph, lookup t (pm nodest (c_thr c)) = Some (Some (n, ph)) ->
-    match ph with
-    | PhPre => ~ In n (c_lst c) /\ ~ In n (g_notified c) /\ ~ In n (c_tok c)
-    | PhLinkMu | PhSelf => In n (c_lst c)
-    | PhAwait => In n (c_lst c) \/ In n (g_notified c)
-    | PhQuiet => ~ In n (c_lst c) /\ ~ In n (c_tok c)
-    end.
-
-Definition C_tok (c : ccfg) : Prop :=
-  NoDup (c_tok c) /\
-  (forall n, In n (c_tok c) ->
-     In n (g_notified c) /\ exists t, lookup t (pm nodest (c_thr c)) = Some (Some (n, PhAwait))).
-
-Definition C_notif (c : ccfg) : Prop :=
-  NoDup (g_notified c) /\
-  (forall n, In n (g_notified c) ->
-     exists t ph, lookup t (pm nodest (c_thr c)) = Some (Some (n, ph)) /\ (ph = PhAwait \/ ph = PhQuiet)) /\
-  (forall t n, lookup t (pm nodest (c_thr c)) = Some (Some (n, PhAwait)) -> In n (g_notified c) ->
-     In n (c_tok c) \/ exists t2, lookup t2 (pm inflight (c_thr c)) = Some (Some n)).
-
-Definition C_infl (c : ccfg) : Prop :=
-  forall t2 f, lookup t2 (pm inflight (c_thr c)) = Some (Some f) ->
-    ~ In f (c_tok c) /\ In f (g_notified c) /\
-    exists t, lookup t (pm nodest (c_thr c)) = Some (Some (f, PhAwait)).
-
-Definition C_bsnap (c : ccfg) : Prop :=
-  forall t, lookup t (pm bcast_holding (c_thr c)) = Some true ->
-    forall n, In n (g_bsnap c) ->
-      In n (c_lst c) \/ In n (g_bsent c) \/ lookup t (pm inflight (c_thr c)) = Some (Some n).
-
 Record Inv (c : ccfg) : Prop := {
   i_nodup : C_nodup c; i_mu : C_mu c; i_L : C_L c; i_size : C_size c; i_ctx : C_ctx c; i_once : C_once c;
-  i_front : C_front c; i_ledger : C_ledger c; i_own : C_own c; i_lst : C_lst c; i_link : C_link c;
-  i_tok : C_tok c; i_notif : C_notif c; i_infl : C_infl c; i_bsnap : C_bsnap c }.
+  i_front : C_front c; i_ledger : C_ledger c }.
 
 (* common opening of a preservation proof for the event EStep *)
 Ltac open_step H p so Hl Hs :=
@@ -634,6 +590,13 @@ Proof.
     + intros t0 X. right. apply HC, X.
 Qed.
 
+Ltac by_old O :=
+  let tt := fresh "tt" in let XX := fresh "XX" in intros tt XX; pose proof (O tt XX); congruence.
+Ltac frame_cong :=
+  let tt := fresh "tt" in let Hne := fresh "Hne" in let XX := fresh "XX" in intros tt Hne XX; congruence.
+Ltac new_flag extra :=
+  let XX := fresh "XX" in cbn; intros XX; first [discriminate XX|congruence|extra|reflexivity].
+
 Lemma once_pres c e c' obs : Inv c -> cond_exec1 c e = Some (c', obs) -> C_once c'.
 Proof.
   intros I H. pose proof (i_once c I) as (O1 & O2 & O3). pose proof (i_nodup c I) as Hnd. unfold C_once.
@@ -648,18 +611,247 @@ Proof.
   - open_step H p so Hl Hs.
     pose proof (lookup_pm_some runs_once _ _ _ Hl) as Hl1.
     pose proof (lookup_pm_some past_fu _ _ _ Hl) as Hl2.
+    pose proof Hl1 as Hl1'. pose proof Hl2 as Hl2'.
     destruct p; inv_step Hs; dctx; try wake_same runs_once Hl Hnd; try wake_same past_fu Hl Hnd;
-      try (split; [|split];
-           [ first [ same_pm runs_once Hl; exact O1
-                   | eapply flag_update; [exact Hl|exact O1|auto|cbn; intros XX; discriminate XX]
-                   | eapply flag_remove; [exact Hnd|exact O1|auto] ]
-           | first [ same_pm past_fu Hl; exact O2
-                   | eapply flag_update; [exact Hl|exact O2|auto|cbn; intros XX; discriminate XX]
-                   | eapply flag_remove; [exact Hnd|exact O2|auto] ]
-           | exact O3 ]; fail).
-    all: idtac "once-left".
-    all: admit.
+      cbn in Hl1', Hl2'; try (pose proof (O1 _ Hl1') as Orun); try (pose proof (O2 _ Hl2') as Opast).
+    all: split; [|split];
+      [ first [ same_pm runs_once Hl; by_old O1
+              | eapply flag_update; [exact Hl|exact O1|frame_cong
+                                    |new_flag fail]
+              | eapply flag_remove; [exact Hnd|exact O1|frame_cong] ]
+      | first [ same_pm past_fu Hl; by_old O2
+              | eapply flag_update; [exact Hl|exact O2|frame_cong
+                                    |new_flag ltac:(apply O3; reflexivity)]
+              | eapply flag_remove; [exact Hnd|exact O2|frame_cong] ]
+      | first [ exact O3 | intros XX; first [discriminate XX|congruence|reflexivity|apply O3; reflexivity] ] ].
   - apply exec1_cancel_inv in H. destruct H as (p & Hl & _ & _ & [(n & -> & ->)|[_ ->]]); scfg.
     + split; [|split]; [same_pm runs_once Hl; exact O1|same_pm past_fu Hl; exact O2|exact O3].
     + split; [|split]; assumption.
-Admitted.
+Qed.
+
+(* ---------- list length vs size counter ---------- *)
+Lemma size_pres c e c' obs : Inv c -> cond_exec1 c e = Some (c', obs) -> C_size c'.
+Proof.
+  intros I H. pose proof (i_size c I) as HS. pose proof (i_nodup c I) as Hnd. unfold C_size in *.
+  destruct e as [t op|t o|t].
+  - apply exec1_call_inv in H. destruct H as [Hl Hsh].
+    destruct Hsh; scfg; rewrite ?pm_spawn, ?sumZ_spawn; cbn [delta]; lia.
+  - open_step H p so Hl Hs.
+    pose proof (lookup_pm_some delta _ _ _ Hl) as Hlm.
+    destruct p; inv_step Hs; dctx; try wake_same delta Hl Hnd;
+      rewrite ?pm_update, ?pm_remove, ?(sumZ_update _ _ _ _ Hlm), ?(sumZ_remove _ _ _ Hlm);
+      cbn [delta after_checkcopy after_firstuse] in *; rewrite ?app_length; cbn [length]; try lia;
+      try (match goal with E : c_lst _ = _ :: _ |- _ => rewrite ?E end; cbn [length] in *; lia).
+    all: match goal with E : mem_nat ?m ?ll = true |- _ =>
+           apply mem_nat_in in E; pose proof (length_remove_node _ _ E) end; lia.
+  - apply exec1_cancel_inv in H. destruct H as (p & Hl & _ & _ & [(n & -> & ->)|[_ ->]]); scfg.
+    + same_pm delta Hl. exact HS.
+    + exact HS.
+Qed.
+
+(* everything a thread does to the list, it does under l.mu *)
+Lemma frontof_mu p : frontof p <> FNo -> holds_mu p = true.
+Proof. destruct p; cbn; congruence. Qed.
+Lemma delta_mu p : delta p <> 0 -> holds_mu p = true.
+Proof. destruct p; cbn; congruence. Qed.
+
+(* another thread than the holder of l.mu has projection value of a non-holder *)
+Lemma other_not_holder c t t0 p0 :
+  C_mu c -> lookup t (pm holds_mu (c_thr c)) = Some true -> t0 <> t ->
+  lookup t0 (c_thr c) = Some p0 -> holds_mu p0 = false.
+Proof.
+  intros M Ht Hne Hl. destruct (holds_mu p0) eqn:E; [|reflexivity]. exfalso. apply Hne.
+  eapply holder_unique; [exact M|exact Ht|]. rewrite lookup_pm, Hl. cbn. rewrite E. reflexivity.
+Qed.
+
+Lemma in_remove_tbl {A} (l : list (tid * A)) t t0 x :
+  NoDup (tids l) -> In (t0, x) (remove t l) -> In (t0, x) l /\ t0 <> t.
+Proof.
+  induction l as [|[t' p'] r IH]; cbn [remove tids map fst]; [cbn; tauto|].
+  intros Hnd. inversion Hnd as [|y ys Hy Hys]; subst.
+  destruct (Nat.eqb t t') eqn:E.
+  - apply Nat.eqb_eq in E. subst t'. intros Hi. split; [right; exact Hi|].
+    intros ->. apply Hy. change (In t (map fst r)). apply (in_map fst) in Hi. exact Hi.
+  - apply Nat.eqb_neq in E. intros [Hi|Hi].
+    + injection Hi as -> ->. split; [left; reflexivity|congruence].
+    + destruct (IH Hys Hi) as [Ha Hb]. split; [right; exact Ha|exact Hb].
+Qed.
+
+Lemma sumZ_zero (X : list (tid * Z)) : (forall t0 z0, In (t0, z0) X -> z0 = 0) -> sumZ X = 0.
+Proof.
+  induction X as [|[t' z'] r IH]; cbn [sumZ]; [reflexivity|].
+  intros Hz. rewrite (Hz t' z') by (left; reflexivity). rewrite IH; [reflexivity|].
+  intros t0 z0 Hi. apply (Hz t0 z0). right; exact Hi.
+Qed.
+
+Lemma sumZ_single (X : list (tid * Z)) t z :
+  NoDup (tids X) -> lookup t X = Some z ->
+  (forall t0 z0, t0 <> t -> lookup t0 X = Some z0 -> z0 = 0) -> sumZ X = z.
+Proof.
+  intros Hnd Hl Hz. pose proof (sumZ_remove _ _ _ Hl) as Hr.
+  rewrite sumZ_zero in Hr; [lia|].
+  intros t0 z0 Hi. destruct (in_remove_tbl _ _ _ _ Hnd Hi) as [Ha Hb].
+  apply (Hz t0 z0 Hb). apply in_lookup; assumption.
+Qed.
+
+(* while the holder of l.mu is not inside pushBack / remove, the counter is the length of the list *)
+Lemma size_is_length c t p :
+  Inv c -> lookup t (c_thr c) = Some p -> holds_mu p = true -> delta p = 0 ->
+  c_size c = Z.of_nat (length (c_lst c)).
+Proof.
+  intros I Hl Hm Hd. pose proof (i_size c I) as HS. unfold C_size in HS.
+  rewrite (sumZ_single (pm delta (c_thr c)) t 0) in HS; [lia| | |].
+  - rewrite tids_pm. apply (i_nodup c I).
+  - rewrite lookup_pm, Hl. cbn. rewrite Hd. reflexivity.
+  - intros t0 z0 Hne X. apply lookup_pm_inv in X. destruct X as (p0 & Hl0 & <-).
+    destruct (Z.eq_dec (delta p0) 0) as [E|E]; [exact E|]. apply delta_mu in E.
+    assert (holds_mu p0 = false); [|congruence].
+    eapply other_not_holder; [apply (i_mu c I)| |exact Hne|exact Hl0].
+    rewrite lookup_pm, Hl. cbn. rewrite Hm. reflexivity.
+Qed.
+
+(* ---------- notifyNext always finds a front node ---------- *)
+Lemma front_pres c e c' obs : Inv c -> cond_exec1 c e = Some (c', obs) -> C_front c'.
+Proof.
+  intros I H. pose proof (i_front c I) as HF. pose proof (i_nodup c I) as Hnd. pose proof (i_mu c I) as HM.
+  unfold C_front in *.
+  destruct e as [t op|t o|t].
+  - apply exec1_call_inv in H. destruct H as [Hl Hsh].
+    destruct Hsh; scfg; try exact HF; (eapply val_spawn; [exact Hl|exact HF|auto|exact Logic.I]).
+  - open_step H p so Hl Hs.
+    pose proof (lookup_pm_some frontof _ _ _ Hl) as Hlm.
+    pose proof (lookup_pm_some holds_mu _ _ _ Hl) as Hlmu.
+    (* frame for the steps that change the list: only the holder of l.mu looks at the front *)
+    assert (Hfr : forall lst', holds_mu p = true ->
+              forall t0 x, t0 <> t -> lookup t0 (pm frontof (c_thr c)) = Some x ->
+                           front_ok (c_lst c) x -> front_ok lst' x).
+    { intros lst' Hp t0 x Hne X _. apply lookup_pm_inv in X. destruct X as (p0 & Hl0 & <-).
+      destruct (frontof p0) eqn:E; cbn; [exact Logic.I| |]; exfalso;
+        (assert (Hh : holds_mu p0 = true) by (apply frontof_mu; congruence));
+        rewrite Hp in Hlmu; rewrite (other_not_holder c t t0 p0 HM Hlmu Hne Hl0) in Hh; discriminate. }
+    pose proof (size_is_length c t p I Hl) as Hsz.
+    destruct p; inv_step Hs; dctx; try wake_same frontof Hl Hnd;
+      try (same_pm frontof Hl; exact HF);
+      try (eapply val_remove; [exact Hnd|exact HF|auto]; fail);
+      try (eapply val_update; [exact Hl|exact HF|auto|exact Logic.I]; fail);
+      try (eapply val_update; [exact Hl|exact HF|apply Hfr; reflexivity|exact Logic.I]; fail).
+    all: try match goal with E : c_lst _ = _ :: _ |- _ => rewrite ?E end.
+    all: eapply val_update; [exact Hl|exact HF|auto|]; cbn.
+    all: try (intros E; specialize (Hsz eq_refl eq_refl); rewrite E in Hsz; cbn in Hsz; lia).
+    all: reflexivity.
+  - apply exec1_cancel_inv in H. destruct H as (p & Hl & _ & _ & [(n & -> & ->)|[_ ->]]); scfg.
+    + same_pm frontof Hl. exact HF.
+    + exact HF.
+Qed.
+
+(* ---------- the token ledger ---------- *)
+Definition bpend_raw (mu : option tid) (X : list (tid * bool)) (len : Z) : Z :=
+  match mu with
+  | Some t => match lookup t X with Some true => len | _ => 0 end
+  | None => 0
+  end.
+
+Lemma bpend_eq c : bpend c = bpend_raw (c_mu c) (pm bcast_holding (c_thr c)) (Z.of_nat (length (c_lst c))).
+Proof. reflexivity. Qed.
+
+Lemma braw_holder t X len b : lookup t X = Some b -> bpend_raw (Some t) X len = if b then len else 0.
+Proof. intros H. unfold bpend_raw. rewrite H. destruct b; reflexivity. Qed.
+
+Lemma braw_other_update mu t b X len : mu <> Some t -> bpend_raw mu (update t b X) len = bpend_raw mu X len.
+Proof.
+  intros H. unfold bpend_raw. destruct mu as [h|]; [|reflexivity].
+  rewrite lookup_update_other; [reflexivity|congruence].
+Qed.
+
+Lemma braw_other_remove mu t X len : mu <> Some t -> bpend_raw mu (remove t X) len = bpend_raw mu X len.
+Proof.
+  intros H. unfold bpend_raw. destruct mu as [h|]; [|reflexivity].
+  rewrite lookup_remove_other; [reflexivity|congruence].
+Qed.
+
+Lemma braw_other_spawn mu t b X len : mu <> Some t -> bpend_raw mu (spawn t b X) len = bpend_raw mu X len.
+Proof.
+  intros H. unfold bpend_raw. destruct mu as [h|]; [|reflexivity].
+  rewrite lookup_spawn. destruct (lookup h X); [reflexivity|].
+  destruct (Nat.eqb h t) eqn:E; [apply Nat.eqb_eq in E; congruence|reflexivity].
+Qed.
+
+Lemma bh_mu p : bcast_holding p = true -> holds_mu p = true.
+Proof. destruct p; cbn; try congruence; dctx; cbn; congruence. Qed.
+
+(* changing the length argument does not matter when the holder is not a broadcaster *)
+Lemma braw_len_irrel mu X len len' :
+  (forall t, mu = Some t -> lookup t X <> Some true) -> bpend_raw mu X len = bpend_raw mu X len'.
+Proof.
+  intros H. unfold bpend_raw. destruct mu as [h|]; [|reflexivity].
+  specialize (H h eq_refl). destruct (lookup h X) as [[|]|]; congruence.
+Qed.
+
+Lemma ledger_pres c e c' obs : Inv c -> cond_exec1 c e = Some (c', obs) -> C_ledger c'.
+Proof.
+  intros I H. pose proof (i_ledger c I) as HG. pose proof (i_nodup c I) as Hnd. pose proof (i_mu c I) as [M1 M2].
+  unfold C_ledger in *. rewrite bpend_eq in *.
+  destruct e as [t op|t o|t].
+  - apply exec1_call_inv in H. destruct H as [Hl Hsh].
+    assert (Hne : c_mu c <> Some t).
+    { intros X. apply M2 in X. rewrite lookup_pm, Hl in X. discriminate. }
+    destruct Hsh; scfg; rewrite ?pm_spawn, ?sumZ_spawn, ?(braw_other_spawn _ _ _ _ _ Hne); cbn [owed]; lia.
+  - open_step H p so Hl Hs.
+    pose proof (lookup_pm_some owed _ _ _ Hl) as Hlo.
+    pose proof (lookup_pm_some bcast_holding _ _ _ Hl) as Hlb.
+    pose proof (lookup_pm_some holds_mu _ _ _ Hl) as Hlm.
+    assert (Hh : holds_mu p = true -> c_mu c = Some t) by (intros X; rewrite X in Hlm; apply M1, Hlm).
+    assert (Hn : holds_mu p = false -> c_mu c <> Some t).
+    { intros X Y. apply M2 in Y. rewrite Hlm, X in Y. discriminate. }
+    pose proof (size_is_length c t p I Hl) as Hsz.
+    destruct p; inv_step Hs; dctx; try wake_same bcast_holding Hl Hnd;
+      cbn [holds_mu delta] in Hh, Hn, Hsz; try (specialize (Hsz eq_refl eq_refl));
+      try match goal with Hf : find_parked ?n _ = Some ?u |- _ =>
+            pose proof (find_parked_lookup _ _ _ Hnd Hf) as Hu;
+            assert (Hut : u <> t) by (intros ->; rewrite Hl in Hu; discriminate);
+            pose proof (lookup_pm_some owed _ _ _ Hu) as Huo; cbn [owed] in Huo end;
+      try match goal with E : andb _ _ = true |- _ => apply andb_prop in E; destruct E as [E _] end;
+      first [specialize (Hn eq_refl); clear Hh | specialize (Hh eq_refl); clear Hn; rewrite Hh in *;
+             rewrite (braw_holder _ _ _ _ Hlb) in HG].
+    all: rewrite ?pm_update, ?pm_remove.
+    all: try (rewrite (sumZ_update _ 1 0) by (rewrite ?lookup_update_other, ?lookup_remove_other by exact Hut; exact Huo)).
+    all: rewrite ?(sumZ_update _ _ _ _ Hlo), ?(sumZ_remove _ _ _ Hlo).
+    all: try (rewrite ?(braw_other_update _ _ _ _ _ Hn), ?(braw_other_remove _ _ _ _ Hn)).
+    all: try (erewrite (braw_holder t) by (eapply lookup_update_same; exact Hlb)).
+    all: cbn [bpend_raw owed bcast_holding after_checkcopy after_firstuse] in *.
+    all: rewrite ?app_length; cbn [length] in *.
+    all: try match goal with E : c_lst _ = _ :: _ |- _ => rewrite ?E in *; cbn [length] in * end.
+    all: try match goal with E : mem_nat ?m ?ll = true |- _ =>
+           apply mem_nat_in in E; pose proof (length_remove_node _ _ E) end.
+    all: lia.
+  - apply exec1_cancel_inv in H. destruct H as (p & Hl & _ & _ & [(n & -> & ->)|[_ ->]]); scfg.
+    + same_pm owed Hl. same_pm bcast_holding Hl. exact HG.
+    + exact HG.
+Qed.
+
+(* ---------- the first group of clauses is inductive ---------- *)
+Lemma inv_pres c e c' obs : Inv c -> cond_exec1 c e = Some (c', obs) -> Inv c'.
+Proof.
+  intros I H. constructor.
+  - eapply nodup_pres; [apply (i_nodup c I)|exact H].
+  - eapply mu_pres; eassumption.
+  - eapply L_pres; eassumption.
+  - eapply size_pres; eassumption.
+  - eapply ctx_pres; eassumption.
+  - eapply once_pres; eassumption.
+  - eapply front_pres; eassumption.
+  - eapply ledger_pres; eassumption.
+Qed.
+
+Lemma inv_init copied : Inv (cond_init copied).
+Proof.
+  constructor.
+  - constructor.
+  - split; intros t H; discriminate H.
+  - intros t H; discriminate H.
+  - reflexivity.
+  - intros t H; discriminate H.
+  - split; [|split]; try (intros t H; discriminate H). destruct copied; cbn; congruence.
+  - intros t x H; discriminate H.
+  - reflexivity.
+Qed.
